@@ -171,6 +171,27 @@ fn run_inner(id: &str) -> Option<(bool, String)> {
             }
             (!bad.is_empty(), format!("assemble() must return Ok or Err; it panicked on {:?}", bad))
         }
+        "vm-set-program-stale-jit" => {
+            let p1 = prog(&[i(ebpf::MOV64_IMM, 0, 0, 0, 1), i(ebpf::EXIT, 0, 0, 0, 0)]);
+            let p2 = prog(&[i(ebpf::MOV64_IMM, 0, 0, 0, 2), i(ebpf::EXIT, 0, 0, 0, 0)]);
+            let mut vm = rbpf::EbpfVmNoData::new(Some(&p1)).unwrap();
+            vm.jit_compile().unwrap();
+            vm.set_program(&p2).unwrap();
+            let interp = vm.execute_program().ok();
+            let jit = unsafe { vm.execute_program_jit() }.ok();
+            (jit == Some(1), format!("new(p1); jit_compile(); set_program(p2): interpreter returns {:?}, execute_program_jit returns {:?} (expected p2's value 2 or an error)", interp, jit))
+        }
+        "fixedmbuff-set-program-order" => {
+            // reads the data pointer at offset 0x40 of the metadata buffer
+            let p1 = prog(&[i(ebpf::LD_DW_REG, 0, 1, 0x40, 0), i(ebpf::MOV64_IMM, 0, 0, 0, 7), i(ebpf::EXIT, 0, 0, 0, 0)]);
+            let bad = prog(&[i(ebpf::MOV64_IMM, 0, 0, 0, 2)]); // no exit: refused by the verifier
+            let mut vm = rbpf::EbpfVmFixedMbuff::new(Some(&p1), 0x40, 0x50).unwrap();
+            let mut pkt = [0u8; 8];
+            let before = vm.execute_program(unsafe { &mut *(&mut pkt as *mut [u8; 8]) }).ok();
+            let refused = vm.set_program(&bad, 0, 8).is_err();
+            let after = vm.execute_program(unsafe { &mut *(&mut pkt as *mut [u8; 8]) }).ok();
+            (refused && before != after, format!("failed set_program(bad, 0, 8) on a VM configured with offsets (0x40, 0x50): execute_program before {:?}, after {:?} (must be identical)", before, after))
+        }
         _ => return None,
     })
 }
